@@ -144,15 +144,62 @@ pub enum KHost {
     BridgeJson,
 }
 
+/// What a replay file holds for a store answer / failure: mirror types with derives of this crate,
+/// so that a scenario read back from a file does not go through the (possibly changed) serde
+/// implementations of the types under test.
+#[derive(Clone, Debug, PartialEq, Eq, Serialize, Deserialize)]
+pub enum SimResp {
+    Get { value: Option<Vec<u8>> },
+    Set { previous: Option<Vec<u8>> },
+    Delete { previous: Option<Vec<u8>> },
+    Exists { is_present: bool },
+    ListKeys { keys: Vec<String>, next_cursor: u64 },
+}
+
+#[derive(Clone, Debug, PartialEq, Eq, Serialize, Deserialize)]
+pub enum SimErr {
+    Io { message: String },
+    Timeout,
+    CursorNotFound,
+    Other { message: String },
+}
+
+impl SimResp {
+    pub fn protocol(&self) -> KeyValueResponse {
+        let v = |o: &Option<Vec<u8>>| match o {
+            Some(b) => KvValue::Bytes(b.clone()),
+            None => KvValue::None,
+        };
+        match self {
+            SimResp::Get { value } => KeyValueResponse::Get { value: v(value) },
+            SimResp::Set { previous } => KeyValueResponse::Set { previous: v(previous) },
+            SimResp::Delete { previous } => KeyValueResponse::Delete { previous: v(previous) },
+            SimResp::Exists { is_present } => KeyValueResponse::Exists { is_present: *is_present },
+            SimResp::ListKeys { keys, next_cursor } => KeyValueResponse::ListKeys { keys: keys.clone(), next_cursor: *next_cursor },
+        }
+    }
+}
+
+impl SimErr {
+    pub fn protocol(&self) -> KeyValueError {
+        match self {
+            SimErr::Io { message } => KeyValueError::Io { message: message.clone() },
+            SimErr::Timeout => KeyValueError::Timeout,
+            SimErr::CursorNotFound => KeyValueError::CursorNotFound,
+            SimErr::Other { message } => KeyValueError::Other { message: message.clone() },
+        }
+    }
+}
+
 #[derive(Clone, Debug, PartialEq, Eq, Serialize, Deserialize)]
 pub enum KAction {
     Call { call: u32, api: KApi, op: KOp },
     /// the store executes the operation of `call` now and answers
     Complete { call: u32 },
     /// the store fails the operation of `call`
-    Fail { call: u32, error: KeyValueError },
+    Fail { call: u32, error: SimErr },
     /// the store answers with an explicit (legal) response instead of executing: e.g. odd pages
-    Answer { call: u32, response: KeyValueResponse },
+    Answer { call: u32, response: SimResp },
 }
 
 #[derive(Clone, Debug, Serialize, Deserialize)]
@@ -269,13 +316,13 @@ fn gen_bytes(rng: &mut Rng) -> Vec<u8> {
     }
 }
 
-fn gen_error(rng: &mut Rng) -> KeyValueError {
+fn gen_error(rng: &mut Rng) -> SimErr {
     match rng.below(5) {
-        0 => KeyValueError::Io { message: gen_string(rng) },
-        1 => KeyValueError::Timeout,
-        2 => KeyValueError::CursorNotFound,
-        3 => KeyValueError::Other { message: String::new() },
-        _ => KeyValueError::Other { message: "boom \u{1F4A5}".into() },
+        0 => SimErr::Io { message: gen_string(rng) },
+        1 => SimErr::Timeout,
+        2 => SimErr::CursorNotFound,
+        3 => SimErr::Other { message: String::new() },
+        _ => SimErr::Other { message: "boom \u{1F4A5}".into() },
     }
 }
 
@@ -343,11 +390,11 @@ impl Check for KvCheck {
                     let i = rng.usize_below(open.len());
                     let (call, op) = open.remove(i);
                     let response = match &op {
-                        KOp::Get { .. } => KeyValueResponse::Get { value: KvValue::Bytes(vec![]) },
-                        KOp::Set { .. } => KeyValueResponse::Set { previous: KvValue::Bytes(gen_bytes(rng)) },
-                        KOp::Delete { .. } => KeyValueResponse::Delete { previous: KvValue::None },
-                        KOp::Exists { .. } => KeyValueResponse::Exists { is_present: rng.chance(1, 2) },
-                        KOp::List { .. } => KeyValueResponse::ListKeys {
+                        KOp::Get { .. } => SimResp::Get { value: Some(vec![]) },
+                        KOp::Set { .. } => SimResp::Set { previous: Some(gen_bytes(rng)) },
+                        KOp::Delete { .. } => SimResp::Delete { previous: None },
+                        KOp::Exists { .. } => SimResp::Exists { is_present: rng.chance(1, 2) },
+                        KOp::List { .. } => SimResp::ListKeys {
                             keys: (0..rng.below(4)).map(|_| gen_string(rng)).collect(),
                             next_cursor: *rng.pick(&[0, 1, u64::MAX, 1 << 40]),
                         },
@@ -454,14 +501,15 @@ impl Check for KvCheck {
                         KAction::Fail { error, .. } => {
                             cov.bump("fault:store_error");
                             interesting = true;
-                            KeyValueResult::Err { error: error.clone() }
+                            KeyValueResult::Err { error: error.protocol() }
                         }
                         KAction::Answer { response, .. } => {
-                            if !response_matches(&op, response) {
+                            let response = response.protocol();
+                            if !response_matches(&op, &response) {
                                 continue;
                             }
                             cov.bump("fault:odd_legal_answer");
-                            KeyValueResult::Ok { response: response.clone() }
+                            KeyValueResult::Ok { response }
                         }
                         KAction::Call { .. } => unreachable!(),
                     };
